@@ -23,6 +23,7 @@ type c07Case struct {
 
 func init() {
 	vh.RegisterReplay("C07.codec", vh.Replayer(runC07))
+	vh.RegisterReplay("C07.writer", vh.Replayer(runC07Writer))
 }
 
 // documented JSON names must be exactly the json tags of Result (so a field
@@ -96,6 +97,63 @@ func runC07(c c07Case) error {
 		}
 	}
 	return nil
+}
+
+// the other direction: streams produced by an independent writer of the documented layout
+// are read by vegeta's decoders (explicit and auto-detected) as the same results.
+func runC07Writer(c c07Case) error {
+	for _, crlf := range []bool{false, true} {
+		data := vgen.WriteCSVDocumented(c.Results, crlf)
+		for name, dec := range map[string]vegeta.Decoder{"CSV decoder": vegeta.NewCSVDecoder(bytes.NewReader(data)), "DecoderFor": vegeta.DecoderFor(bytes.NewReader(data))} {
+			if dec == nil {
+				if len(c.Results) == 0 {
+					continue
+				}
+				return fmt.Errorf("%s does not recognise a CSV stream in the documented layout (crlf=%v): %q", name, crlf, trunc(data))
+			}
+			got, derr := vgen.DecodeAll(dec, len(c.Results)+1)
+			if derr != io.EOF {
+				return fmt.Errorf("%s on a documented-layout CSV stream (crlf=%v): stopped after %d of %d records with %v; stream %q", name, crlf, len(got), len(c.Results), derr, trunc(data))
+			}
+			if d := vgen.DiffResults(c.Results, got); d != "" {
+				return fmt.Errorf("%s on a documented-layout CSV stream (crlf=%v): %s", name, crlf, d)
+			}
+		}
+	}
+	data, err := vgen.WriteJSONDocumented(c.Results)
+	if err != nil {
+		return err
+	}
+	for name, dec := range map[string]vegeta.Decoder{"JSON decoder": vegeta.NewJSONDecoder(bytes.NewReader(data)), "DecoderFor": vegeta.DecoderFor(bytes.NewReader(data))} {
+		if dec == nil {
+			if len(c.Results) == 0 {
+				continue
+			}
+			return fmt.Errorf("%s does not recognise a JSON stream in the documented layout: %q", name, trunc(data))
+		}
+		got, derr := vgen.DecodeAll(dec, len(c.Results)+1)
+		if derr != io.EOF {
+			return fmt.Errorf("%s on a documented-layout JSON stream: stopped after %d of %d records with %v", name, len(got), len(c.Results), derr)
+		}
+		if d := vgen.DiffResults(c.Results, got); d != "" {
+			return fmt.Errorf("%s on a documented-layout JSON stream: %s", name, d)
+		}
+	}
+	return nil
+}
+
+func TestC07Writer(t *testing.T) {
+	vh.Check(t, 300, 10000, func(t *rapid.T) {
+		c := c07Case{Results: vgen.Results(t, "rs", 0, 10, vgen.ResultOpts{AllowLargeBody: rapid.IntRange(0, 5).Draw(t, "big") == 0})}
+		nt, labels := c07Classify(c.Results)
+		sig, _ := json.Marshal(c)
+		vh.Case("C07.writer", string(sig), nt, labels...)
+		var err error
+		vh.Guard("C07", "C07.writer", c, func() { err = runC07Writer(c) })
+		if err != nil {
+			vh.Fail(t, "C07", "C07.writer", c, err)
+		}
+	})
 }
 
 func c07Classify(rs []vegeta.Result) (nontrivial bool, labels []string) {
